@@ -168,8 +168,8 @@ def run(rep, tier):
     G = drivers.load()
     link = ag.NbLink()
     rep.rule = ("Complete enumeration of the class grid {MD5,SHA-1} x {none,DES,AES} x MAC{valid,zero,random,bitflip,absent,short} x "
-                "flag{auth,noAuth} x {as configured, clear although priv} x {GetResponse,Report} x {get,get_many,getnext,getbulk}, 3 "
-                "payloads each, every forged reply followed by the genuine one; plus Hypothesis variation of users, engine ids, key "
+                "flag{auth,noAuth} x {as configured, clear although priv} x {GetResponse,Report} x {get,get_many,getnext,getbulk}, 4 "
+                "payloads each (0..2 genuine exchanges first; every other session built without keys and re-keyed with set_keys), every forged reply followed by the genuine one; plus Hypothesis variation of users, engine ids, key "
                 "types and payloads. Non-trivial = any variant other than the valid control; distinct by (digest, cipher, class, op).")
     rep.assumptions = ["forged replies are otherwise matching (user, engine id, msgID, request-id taken from the wire)"]
     try:
